@@ -200,6 +200,60 @@ pub fn test_nonword(c: &NonWordCase, ctx: &mut CaseCtx) -> Result<(), String> {
     Ok(())
 }
 
+#[derive(Debug, Clone, Serialize, Deserialize, PartialEq, Eq, Hash)]
+pub struct MixCase {
+    pub words: Vec<String>,
+    pub dialect: u8,
+}
+
+/// The verdict on a word occurrence does not depend on the other words of the document:
+/// each word is flagged in the mixed document iff it is flagged alone.
+pub fn test_context_free(c: &MixCase, ctx: &mut CaseCtx) -> Result<(), String> {
+    let words: Vec<&String> = c
+        .words
+        .iter()
+        .filter(|w| !w.is_empty() && w.chars().all(|ch| ch.is_alphabetic()))
+        .collect();
+    if words.len() < 2 {
+        ctx.class("too_few_words");
+        return Ok(());
+    }
+    let mut text = String::from("We saw ");
+    let mut spans = vec![];
+    for (i, w) in words.iter().enumerate() {
+        let start = text.chars().count();
+        text.push_str(w);
+        spans.push((start, start + w.chars().count()));
+        text.push_str(if i + 1 < words.len() { " and " } else { " today." });
+    }
+    let lints = spell_lints(&text, c.dialect);
+    let lower: Vec<String> = words.iter().map(|w| w.to_lowercase()).collect();
+    let case_variants = (0..words.len()).any(|i| (0..i).any(|j| lower[i] == lower[j] && words[i] != words[j]));
+    ctx.class_if(case_variants, "case_variants_of_one_word");
+    let mut any_flagged = false;
+    let mut any_clean = false;
+    for (w, (s, e)) in words.iter().zip(&spans) {
+        let alone = !spell_lints(&format!("We saw {w} today."), c.dialect)
+            .iter()
+            .all(|l| !(l.span.start < 7 + w.chars().count() && 7 < l.span.end));
+        let here = lints.iter().any(|l| l.span.start < *e && *s < l.span.end);
+        any_flagged |= alone;
+        any_clean |= !alone;
+        if alone != here {
+            return Err(format!(
+                "{w:?} is {} on its own but {} inside {text:?}",
+                if alone { "reported" } else { "accepted" },
+                if here { "reported" } else { "accepted" }
+            ));
+        }
+    }
+    ctx.class_if(any_flagged && any_clean, "mixed_verdicts");
+    if case_variants || (any_flagged && any_clean) {
+        ctx.nontrivial(c);
+    }
+    Ok(())
+}
+
 const FRAMES: &[(&str, &str)] = &[
     ("The ", " is here."),
     ("We saw a ", " today"),
@@ -275,6 +329,63 @@ pub fn run(run: &mut Run) {
     run.require_class("entry_in_sentence", "affix_derived", (n / 10) as u64);
     run.require_class("entry_in_sentence", "recased", (n / 10) as u64);
 
+    let n = run.n(8_000, 300_000);
+    run.prop(
+        "verdict_is_context_free",
+        n,
+        || {
+            let recased = (g::dict_word(), 0u8..4).prop_map(|(w, m)| match m {
+                0 => w,
+                1 => w.to_lowercase(),
+                2 => w.to_uppercase(),
+                _ => {
+                    let mut c = w.chars();
+                    match c.next() {
+                        Some(f) => f.to_uppercase().collect::<String>() + c.as_str(),
+                        None => w,
+                    }
+                }
+            });
+            // a base word in 2-3 case forms, mixed with other words and non-words
+            (
+                g::dict_word(),
+                proptest::collection::vec(0u8..4, 1..4),
+                proptest::collection::vec(prop_oneof![2 => recased, 1 => g::near_word(), 1 => g::plain_word()], 0..4),
+                any::<u64>(),
+                0u8..4,
+            )
+                .prop_map(|(base, forms, mut others, salt, dialect)| {
+                    let mut words: Vec<String> = forms
+                        .iter()
+                        .map(|m| match m {
+                            0 => base.clone(),
+                            1 => base.to_lowercase(),
+                            2 => base.to_uppercase(),
+                            _ => {
+                                let mut c = base.chars();
+                                match c.next() {
+                                    Some(f) => f.to_uppercase().collect::<String>() + &c.as_str().to_lowercase(),
+                                    None => base.clone(),
+                                }
+                            }
+                        })
+                        .collect();
+                    words.append(&mut others);
+                    // deterministic shuffle
+                    let n = words.len();
+                    for i in (1..n).rev() {
+                        let j = (crate::core::mix(salt, i as u64) % (i as u64 + 1)) as usize;
+                        words.swap(i, j);
+                    }
+                    MixCase { words, dialect }
+                })
+                .boxed()
+        },
+        test_context_free,
+    );
+    run.require_class("verdict_is_context_free", "case_variants_of_one_word", (n / 5) as u64);
+    run.require_class("verdict_is_context_free", "mixed_verdicts", (n / 10) as u64);
+
     let n = run.n(6_000, 200_000);
     run.prop(
         "non_words_are_reported",
@@ -307,7 +418,10 @@ pub fn run(run: &mut Run) {
 
 pub fn replay(check: &str, case: Value, run: &mut Run) -> Result<(), String> {
     let mut ctx = CaseCtx::default();
-    let r = if check == "non_words_are_reported" {
+    let r = if check == "verdict_is_context_free" {
+        let c: MixCase = serde_json::from_value(case).map_err(|e| e.to_string())?;
+        test_context_free(&c, &mut ctx)
+    } else if check == "non_words_are_reported" {
         let c: NonWordCase = serde_json::from_value(case).map_err(|e| e.to_string())?;
         test_nonword(&c, &mut ctx)
     } else {
